@@ -24,8 +24,33 @@ class _LineInterp(Interp):
         self.lexer_at_parse = []
 
     track_lexer = False
+    parse_outcome = None        # None: parse_statement intercepted; "ok" / "none" / "raise": parse_statement evaluated, the LALR call stubbed
+
+    def attribute(self, e, env):
+        if e.attr == "parse" and isinstance(e.value, ast.Attribute) and e.value.attr == "yacc":
+            o = self.ev(e.value, env)
+            if isinstance(o, Obj) and getattr(o, "_kind", None) == "yacc":
+                return ("method", o, "parse")
+        return super().attribute(e, env)
+
+    def method(self, o, m, args, kwargs):
+        if isinstance(o, Obj) and getattr(o, "_kind", None) == "yacc" and m == "parse":
+            self.parsed.append(copy.deepcopy(args[0] if args else None))
+            # the lexer flags as the LALR call finds them; the call then leaves them in whatever state the statement put them
+            self.lexer_at_parse.append(dict(self.lexer.__dict__))
+            for k in list(self.lexer.__dict__):
+                setattr(self.lexer, k, LineMachine.DIRTY)
+            if self.parse_outcome == "raise":
+                mod = self.model.modules.get("simple_ddl_parser.ddl_parser") or self.model.parser_method("parse_statement").module
+                raise Raised("DDLParserError", "raise DDLParserError(...)  [the lexer / parser error hook, silent=False or an unknown symbol]", None, mod)
+            if self.parse_outcome == "none":
+                return None
+            return {"parsed": copy.deepcopy(args[0] if args else None)}
+        return super().method(o, m, args, kwargs)
 
     def call_method(self, name, args, kwargs=None):
+        if name == "parse_statement" and self.parse_outcome is not None:
+            return super().call_method(name, args, kwargs)
         if name == "parse_statement":
             self.parsed.append(copy.deepcopy(self.self_attrs.get("statement")))
             if self.track_lexer:
@@ -179,12 +204,33 @@ class LineMachine:
 
     DIRTY = "<left over from the previous statement>"
 
-    def lexer_flags_at_parse(self, state, line, more_lines=True):
-        """process_line evaluated with the reset function NOT intercepted and every lexer flag dirty beforehand: the lexer flags as
-        they are at each call of parse_statement (one dict per statement handed over)"""
+    def lexer_after_prologue(self):
+        """the lexer flags when the line loop of parse_data starts: everything dirty (whatever an earlier run() left) unless the
+        statements before the loop reset them"""
+        pd = self.model.parser_method("parse_data")
+        loop = [i for i, st in enumerate(pd.node.body) if isinstance(st, ast.For) and any(
+            isinstance(n, ast.Call) and isinstance(n.func, ast.Attribute) and n.func.attr == "process_line" for n in ast.walk(st))]
+        attrs = dict(self.consts)
+        attrs["data"] = b""
+        it = _LineInterp(self.model, self.ctx.grammar.tokens_ns, attrs)
+        it.track_lexer = True
+        it.cur_func = pd
+        for k in self.ctx.lexer.start_flags:
+            setattr(it.lexer, k, self.DIRTY)
+        try:
+            it.block(pd.node.body[:loop[0]] if loop else [], {"__module__": pd.module})
+        except (PyRaise, Raised, LexUnknown, NonUniform):
+            pass
+        return dict(it.lexer.__dict__)
+
+    def lexer_flags_at_parse(self, state, line, more_lines=True, lexer_in=None):
+        """process_line evaluated with the reset function NOT intercepted: the lexer flags as they are at each call of
+        parse_statement (one dict per statement handed over) and the flags the call leaves behind.  `lexer_in`: the flags before
+        the line (default: everything dirty).  Every intercepted parse dirties all flags."""
         from .deriv import _leaves, _project
         start = dict(self.ctx.lexer.start_flags)
         out = []
+        after = None
         width = 6 if any(True for _ in _leaves([line, state])) else 1
         for i in range(width):
             attrs = dict(self.consts)
@@ -194,9 +240,43 @@ class LineMachine:
             it.track_lexer = True
             for k in start:
                 setattr(it.lexer, k, self.DIRTY)
+            for k, v in (lexer_in or {}).items():
+                setattr(it.lexer, k, v)
             it.call_func(self.model.parser_method("process_line"), [more_lines])
             out.extend(it.lexer_at_parse)
+            la = dict(it.lexer.__dict__)
+            if after is None:
+                after = la
+            elif after != la:
+                after = {k: (v if la.get(k) == v else self.DIRTY) for k, v in after.items()}
+        self.last_lexer_after = after
         return out, start
+
+    def step_parse(self, state, line, more_lines, outcome, silent, lexer_in=None):
+        """process_line with parse_statement EVALUATED (only the LALR call itself is stubbed): outcome "ok" (a result dict), "none"
+        (nothing recognised) or "raise" (the error hooks raise DDLParserError).  Returns (statements handed over, new state, the
+        exception that escaped or None) - concrete lines only"""
+        attrs = dict(self.consts)
+        attrs.update(copy.deepcopy(state))
+        attrs["line"] = line
+        attrs["silent"] = silent
+        attrs["yacc"] = Obj(_kind="yacc")
+        it = _LineInterp(self.model, self.ctx.grammar.tokens_ns, attrs)
+        it.parse_outcome = outcome
+        it.track_lexer = True           # the reset function is evaluated, not skipped
+        for k in self.ctx.lexer.start_flags:
+            setattr(it.lexer, k, self.DIRTY)
+        for k, v in (lexer_in or {}).items():
+            setattr(it.lexer, k, v)
+        self.last_lexer_at_parse = it.lexer_at_parse
+        self.last_lexer_obj = it.lexer
+        escaped = None
+        try:
+            it.call_func(self.model.parser_method("process_line"), [more_lines])
+        except Raised as r:
+            escaped = r
+        new = {r_: it.self_attrs.get(r_) for r_ in REGISTERS}
+        return it.parsed, new, escaped
 
     def step_each(self, state, line, more_lines=True):
         """one (statements, new state) per exemplar - for line classes the machine does not treat uniformly"""
